@@ -23,11 +23,14 @@ for d in sorted(os.listdir(os.path.join(V, "seeded"))):
     files = sorted(set(re.findall(r"^\+\+\+ b/(\S+)", open(os.path.join(V, "seeded", d, "patch.diff")).read(), re.M)))
     c = m["check"]
     res = "caught: " + ", ".join(c.get("rules") or []) if c.get("detected") else ("MISSED" if c.get("exit") == 0 else "check exit %s" % c.get("exit"))
+    sib = m.get("sibling_check")
+    if sib and not c.get("detected"):
+        res = "own check: missed; `./check %s quick`: %s" % (sib["property"], ("caught: " + ", ".join(sib.get("rules") or [])) if sib.get("detected") else "missed")
     rows.append((d, ", ".join(files), title[:110], res, notes.get(d, "")))
 print("| seed | file(s) changed | what it does | `./check <P> quick` on the patched tree | note |")
 print("|---|---|---|---|---|")
 for r in rows:
     print("| %s | %s | %s | %s | %s |" % r)
 print()
-n = len(rows); c = sum(1 for r in rows if r[3].startswith("caught"))
-print("%d seeded changes confirmed (build, suite passes, demo fails with / passes without the patch); %d caught by the registered quick check." % (n, c))
+n = len(rows); c = sum(1 for r in rows if r[3].startswith("caught")); c2 = sum(1 for r in rows if "quick`: caught" in r[3])
+print("%d seeded changes confirmed (build, suite passes, demo fails with / passes without the patch); %d caught by the quick check of the property they were written against, %d more by the quick check of a sibling property (named in the row)." % (n, c, c2))
